@@ -26,6 +26,7 @@ type probe struct {
 	accept bool
 	mess   bool // inline probes: consume a byte before declining (the driver must restore the position)
 	indent bool // block probes: CanAcceptIndentedLine
+	noInt  bool // block probes: CanInterruptParagraph is false
 	log    *[]string
 }
 
@@ -53,7 +54,7 @@ func (b probeBlock) Continue(node ast.Node, reader text.Reader, pc parser.Contex
 	return parser.Close
 }
 func (b probeBlock) Close(node ast.Node, reader text.Reader, pc parser.Context) {}
-func (b probeBlock) CanInterruptParagraph() bool                                { return true }
+func (b probeBlock) CanInterruptParagraph() bool                                { return !b.p.noInt }
 func (b probeBlock) CanAcceptIndentedLine() bool                                { return b.p.indent }
 
 // ---- inline parser probe ----
@@ -200,6 +201,85 @@ func runC20(c *Ctx) {
 		n = 80000
 	}
 	prioScenarios(c, n, []byte{'a', 'b', 'c', 'd', 'e'})
+	retryScenarios(c, n/4)
+}
+
+// retryScenarios: block probes on the trigger '-' next to the built-in setext heading (100),
+// thematic break (200) and list (300) parsers, on a setext-underline-like line that follows a
+// paragraph.  "[foo]: /u" + "---": the setext parser asks for the paragraph, the reference
+// definition transformer swallows it, and openBlocks starts over with the whole candidate list,
+// now without an open paragraph, so that parsers which may not interrupt a paragraph get their
+// turn in priority order.  "text" + "---": the paragraph stays, the setext parser wins unless a
+// probe of smaller priority value that may interrupt paragraphs accepts.
+func retryScenarios(c *Ctx, n int) {
+	pool := []int{10, 50, 90, 99, 101, 150, 199, 201, 250, 400, -5}
+	for it := 0; it < n; it++ {
+		k := 1 + c.R.Intn(3)
+		perm := append([]int(nil), pool...)
+		for i := len(perm) - 1; i > 0; i-- {
+			j := c.R.Intn(i + 1)
+			perm[i], perm[j] = perm[j], perm[i]
+		}
+		var log []string
+		var ps []*probe
+		for i := 0; i < k; i++ {
+			ps = append(ps, &probe{id: i + 1, prio: perm[i], trig: []byte{'-'}, accept: c.R.Intn(3) == 0, noInt: c.R.Intn(2) == 0, log: &log})
+		}
+		swallowed := it%2 == 0
+		doc := "text\n---\n"
+		if swallowed {
+			doc = "[foo]: /u\n---\n"
+		}
+		md := buildWith(c.R, 'a', ps)
+		_, errS, panicS := convertSafe(md, []byte(doc))
+		obs := strings.Join(log, ",")
+		if errS != "" || panicS != "" {
+			obs = "FAIL:" + errS + panicS
+		}
+		s := append([]*probe{}, ps...)
+		sort.SliceStable(s, func(i, j int) bool { return s[i].prio < s[j].prio })
+		var want []string
+		done := false
+		// first pass: a paragraph is open; only parsers that may interrupt one are asked, up to
+		// the setext parser at 100, which takes the line
+		for _, p := range s {
+			if p.prio > 100 {
+				break
+			}
+			if p.noInt {
+				continue
+			}
+			want = append(want, itoa(p.id))
+			if p.accept {
+				done = true
+				break
+			}
+		}
+		if !done && swallowed {
+			// the paragraph is gone: every candidate again, in priority order, up to the thematic
+			// break parser at 200, which takes the line
+			for _, p := range s {
+				if p.prio > 200 {
+					break
+				}
+				want = append(want, itoa(p.id))
+				if p.accept {
+					break
+				}
+			}
+		}
+		if w := strings.Join(want, ","); obs != w {
+			c.Violate("priority-oracle", map[string]string{"role": "a", "components": descr(ps), "document": q([]byte(doc)), "may_not_interrupt": fmt.Sprint(func() (r []int) {
+				for _, p := range ps {
+					if p.noInt {
+						r = append(r, p.id)
+					}
+				}
+				return
+			}())}, fmt.Sprintf("observed %q, expected by priority %q", obs, w), "priority-oracle")
+		}
+		c.Count("retry-scenarios", doc+descr(ps)+obs, k >= 2)
+	}
 }
 
 // prioScenarios: random sets of probe components per role, run through goldmark; the observed
